@@ -44,7 +44,8 @@ RULE = ("each run draws a pipeline (Sequence or Source form, 1-2 Cache elements,
         " that the temporary name cannot be created (ENAMETOOLONG)."
         " Two-object histories may put each object into a simulated process of its own (own pid,"
         " own copy of the module-level counters): a dump suspended in one process while the other"
-        " one runs, completes, and the first is then closed or resumed.")
+        " one runs, completes, and the first is then closed or resumed. Flows that hold bare None"
+        " values.")
 REAL = ["lena.flow.Cache", "lena.core.Sequence", "lena.core.Source", "lena.core.SourceEl",
         "lena.core.Run", "lena.core.alter_sequence", "lena.meta.SetContext", "pickle"]
 STUB = ["SimFS/SimOS (disk, os, open)", "SimSource (input flow)", "ProbeCall/ProbeRun/ProbeFC "
@@ -62,7 +63,7 @@ ASSUMPTIONS = [
 FAULT_KINDS = ["write-error-ENAMETOOLONG", "write-error-ENOSPC-at-close", "read-error-EIO", "consumer-stop-close", "consumer-stop-drop", "consumer-stop-hold", "raise-downstream",
                "raise-upstream-source", "raise-upstream-element", "drop_cache",
                "recompute", "process-crash"]
-EXPECTED_PROBES = ["process-switch", "run-while-another-process-is-suspended-in-a-dump",
+EXPECTED_PROBES = ["bare-None-reaches-the-cache", "process-switch", "run-while-another-process-is-suspended-in-a-dump",
                    "held-run-of-the-other-process-released", "values-of-many-builtin-types", "kept-hoisted-source-called-again", "hoisted-source-fails-loudly-without-its-cache", "held-run-finished-after-later-runs", "values-hold-one-object-twice", "write-error-surfaced-loudly", "held-generator-released-before-a-later-run", "other-object-ran-in-between", "downstream-updates-in-place", "source-reuses-one-context-object", "same-object-reused", "split-form-replay", "read-error-surfaced-loudly", "replay-run", "replay-after-interrupted-run", "stop-at-exact-length",
                    "two-caches-inner-replay", "hoisted-to-source", "empty-flow-cached",
                    "interrupted-recompute-over-existing-cache", "accumulator-upstream-of-replay"]
@@ -76,9 +77,12 @@ def set_tier(t):
 
 REPEAT = [False]   # set per history: values hold the same string object several times
 EXOTIC = [False]   # set per history: values hold sets, ranges, complex numbers, byte arrays
+NONES = [False]    # set per history: the second and the fourth value of every flow are a bare None
 
 
 def value(r, i, with_context):
+    if NONES[0] and i in (1, 3):
+        return None
     data = ("v", r, i)
     if EXOTIC[0]:
         # builtin types that older pickle protocols store by reference to their Python-2 names
@@ -208,6 +212,10 @@ def gen_scenario(tape):
     # values that refer to one object from several places (pickle memoises such objects)
     sc.repeat = (not getattr(sc, "shared_ctx", False)) and tape.chance(1, 3, "values-hold-one-object-twice")
     sc.exotic = (not getattr(sc, "shared_ctx", False)) and tape.chance(1, 4, "values-of-many-builtin-types")
+    # bare None values in the flow (a legitimate, picklable value; the elements in front of the
+    # cache wrap it, so it reaches the cache bare only in pipelines that start with the cache)
+    sc.nones = (not getattr(sc, "shared_ctx", False)) and tape.chance(1, 4 if sc.npre == 0 else 12,
+                                                                     "none-values")
     # a second pipeline object on the same cache files (another process, another notebook cell)
     sc.two = sc.reuse and sc.form != "split" and tape.chance(1, 2, "two-objects")
     # ... each of them in an operating-system process of its own (own pid, own module globals)
@@ -504,6 +512,9 @@ def run(tape):
     install(fs)
     REPEAT[0] = bool(getattr(sc, "repeat", False))
     EXOTIC[0] = bool(getattr(sc, "exotic", False))
+    NONES[0] = bool(getattr(sc, "nones", False))
+    if NONES[0] and sc.npre == 0 and not sc.fc:
+        res.probe("bare-None-reaches-the-cache")
     if EXOTIC[0]:
         res.probe("values-of-many-builtin-types")
     if REPEAT[0]:
